@@ -449,6 +449,153 @@ def delegate(run, rule, sub_prop, fn, only_rules=None, note=""):
     return n
 
 
+# ---------------------------------------------------------------------------
+# who starts worker processes (transitively), and which `with` blocks keep them alive
+
+def _class_entry_funcs(project, func, name_node):
+    """Functions run by `Name(...)` when Name is a project class: __init__ and __enter__."""
+    d = dotted(name_node)
+    if d is None or "." in d:
+        return []
+    modname = func.module.name
+    cands = [modname + "." + d]
+    imp = project.imports(modname).get(d)
+    if imp and imp[0] == "symbol":
+        cands.append(imp[1] + "." + imp[2])
+    out = []
+    for q in cands:
+        for m in ("__init__", "__enter__"):
+            g = project.funcs.get(q + "." + m)
+            if g is not None:
+                out.append(g)
+    return out
+
+
+def worker_starters(project):
+    """{qual} of the project functions that start worker processes, directly (`<Process(..)>.start()`) or through project
+    functions / constructors / context managers they call.  Cached on the project."""
+    from sa import sym as _sym
+    cache = _sym.project_cache(project, "worker_starters")
+    if "v" in cache:
+        return cache["v"]
+    direct = set()
+    calls = {}
+    for f in project.py_funcs():
+        if "/tests/" in f.module.relpath:
+            continue
+        src_has_process = any(isinstance(c.func, (ast.Name, ast.Attribute)) and (dotted(c.func) or "").split(".")[-1] == "Process" for c in own_calls(f.node))
+        starts = any(isinstance(c.func, ast.Attribute) and c.func.attr == "start" for c in own_calls(f.node))
+        if src_has_process and starts:
+            direct.add(f.qual)
+        outs = set()
+        for c in own_calls(f.node):
+            g = resolve_callee(project, f, c)
+            if g is not None:
+                outs.add(g.qual)
+            for g2 in _class_entry_funcs(project, f, c.func):
+                outs.add(g2.qual)
+        calls[f.qual] = outs
+    closure = set(direct)
+    changed = True
+    while changed:
+        changed = False
+        for q, outs in calls.items():
+            if q not in closure and outs & closure:
+                closure.add(q)
+                changed = True
+    cache["v"] = closure
+    return closure
+
+
+def live_worker_withs(project, func, node):
+    """The `with` statements of *func* that enclose *node* and whose context manager starts worker processes (a pool class, a
+    @contextmanager helper that starts them): inside such a block the workers are alive.  -> [(with stmt, description)]"""
+    starters = worker_starters(project)
+    out = []
+    for w in [n for n in own_nodes(func.node) if isinstance(n, (ast.With, ast.AsyncWith))]:
+        inside = any(x is node for b in w.body for x in ast.walk(b))
+        if not inside:
+            continue
+        for item in w.items:
+            ce = item.context_expr
+            if not isinstance(ce, ast.Call):
+                continue
+            g = resolve_callee(project, func, ce)
+            tg = [g] if g is not None else []
+            tg += _class_entry_funcs(project, func, ce.func)
+            hit = [t for t in tg if t.qual in starters]
+            if hit:
+                out.append((w, "%s (line %d), which starts worker processes in %s" % (ast.unparse(ce.func), w.lineno, hit[0].short)))
+    return out
+
+
+# ---------------------------------------------------------------------------
+# pairing by position after filtering: zip(TABLE, filtered) shifts every element behind a dropped one
+
+def _filtering_producer(project, func, expr, depth=0):
+    """Why *expr* (an operand of zip) may be shorter than the sequence it was made from: a comprehension with a condition,
+    filter(..), or a project generator that yields under a condition inside its loop; looks through list()/tuple() and one
+    single assignment of a local name.  -> reason string or None."""
+    if depth > 4:
+        return None
+    if isinstance(expr, ast.Call) and isinstance(expr.func, ast.Name) and expr.func.id in ("list", "tuple", "iter", "reversed") and len(expr.args) == 1:
+        return _filtering_producer(project, func, expr.args[0], depth + 1)
+    if isinstance(expr, (ast.ListComp, ast.GeneratorExp)):
+        if any(g.ifs for g in expr.generators):
+            return "a comprehension with a condition (line %d)" % expr.lineno
+        return _filtering_producer(project, func, expr.generators[0].iter, depth + 1)      # one element per element of its source
+    if isinstance(expr, ast.Call) and isinstance(expr.func, ast.Name) and expr.func.id in ("map", "enumerate", "sorted") and expr.args:
+        return _filtering_producer(project, func, expr.args[-1], depth + 1)
+    if isinstance(expr, ast.Call) and isinstance(expr.func, ast.Name) and expr.func.id == "filter":
+        return "filter(..) (line %d)" % expr.lineno
+    if isinstance(expr, ast.Call):
+        g = resolve_callee(project, func, expr)
+        if g is not None:
+            for lp in [n for n in own_nodes(g.node) if isinstance(n, (ast.For, ast.While))]:
+                for n in ast.walk(lp):
+                    if isinstance(n, ast.If) and any(isinstance(y, (ast.Yield, ast.YieldFrom)) for b in n.body + n.orelse for y in ast.walk(b)):
+                        uncond = [st for st in lp.body if isinstance(st, ast.Expr) and isinstance(st.value, ast.Yield)]
+                        if not uncond:
+                            return "%s, which yields only the elements passing `%s` (line %d)" % (g.short, ast.unparse(n.test)[:50], n.lineno)
+            rets = [n for n in own_nodes(g.node) if isinstance(n, ast.Return) and n.value is not None]
+            if len(rets) == 1 and not any(isinstance(n, (ast.Yield, ast.YieldFrom)) for n in own_nodes(g.node)):
+                return _filtering_producer(project, g, rets[0].value, depth + 1)
+        return None
+    if isinstance(expr, ast.Name):
+        asg = [n for n in own_nodes(func.node) if isinstance(n, ast.Assign) and len(n.targets) == 1 and isinstance(n.targets[0], ast.Name) and n.targets[0].id == expr.id]
+        if len(asg) == 1:
+            return _filtering_producer(project, func, asg[0].value, depth + 1)
+        # a list filled by a guarded append in a loop
+        for lp in [n for n in own_nodes(func.node) if isinstance(n, ast.For)]:
+            for n in ast.walk(lp):
+                if isinstance(n, ast.If):
+                    for c in ast.walk(n):
+                        if isinstance(c, ast.Call) and isinstance(c.func, ast.Attribute) and c.func.attr == "append" and isinstance(c.func.value, ast.Name) \
+                                and c.func.value.id == expr.id:
+                            plain = [st for st in lp.body if isinstance(st, ast.Expr) and isinstance(st.value, ast.Call) and isinstance(st.value.func, ast.Attribute)
+                                     and st.value.func.attr == "append" and isinstance(st.value.func.value, ast.Name) and st.value.func.value.id == expr.id]
+                            if not plain:
+                                return "`%s`, appended to only under `%s` (line %d)" % (expr.id, ast.unparse(n.test)[:50], n.lineno)
+    return None
+
+
+def misaligned_zips(project, func):
+    """[(zip call, filtered operand text, reason, other operand text)] for zip(..) calls of *func* in which one operand was
+    filtered and another was not: zip pairs by position, so each element behind a dropped one meets the wrong partner."""
+    out = []
+    for c in own_calls(func.node):
+        if isinstance(c.func, ast.Name) and c.func.id == "zip" and len(c.args) >= 2 and not any(isinstance(a, ast.Starred) for a in c.args):
+            why = [_filtering_producer(project, func, a) for a in c.args]
+            # the unfiltered partner must be a sequence that certainly was not derived from the filtered one: a literal, a
+            # constant table of the module, an attribute of the object
+            local = {a.arg for a in func.node.args.args} | {n.id for n in own_nodes(func.node) if isinstance(n, ast.Name) and isinstance(n.ctx, ast.Store)}
+            fixed = [isinstance(a, (ast.Tuple, ast.List, ast.Attribute)) or (isinstance(a, ast.Name) and a.id not in local) for a in c.args]
+            if any(why) and [k for k, w in enumerate(why) if not w and fixed[k]]:
+                i = [k for k, w in enumerate(why) if w][0]
+                j = [k for k, w in enumerate(why) if not w and fixed[k]][0]
+                out.append((c, ast.unparse(c.args[i])[:60], why[i], ast.unparse(c.args[j])[:60]))
+    return out
+
 
 # ---------------------------------------------------------------------------
 # discarded futures: errors raised by tasks handed to a concurrent.futures executor surface only when the result is asked for
